@@ -30,6 +30,13 @@ from strawberryfields.tdm import TDMProgram, is_ptype
 from strawberryfields import ops
 
 
+def _apply(operation, stmt: xir.Statement, regrefs) -> None:
+    """Apply ``operation``, or its inverse if the XIR statement carries the ``inv`` modifier, to ``regrefs``."""
+    if stmt.is_inverse:
+        operation = operation.H
+    operation | regrefs  # pylint:disable=expression-not-assigned,pointless-statement
+
+
 def get_expanded_statements(prog: xir.Program) -> Sequence[xir.Statement]:
     """Get a list of statements with all gate definitions expanded.
 
@@ -108,7 +115,7 @@ def from_xir(xir_prog: xir.Program) -> Program:
                 if isinstance(op.params, dict):
                     vals = sfpar.par_convert(op.params.values(), prog)
                     params = dict(zip(op.params.keys(), vals))
-                    gate(**params) | regrefs  # pylint:disable=expression-not-assigned
+                    _apply(gate(**params), op, regrefs)
                 else:
                     params = []
                     for p in op.params:
@@ -119,9 +126,9 @@ def from_xir(xir_prog: xir.Program) -> Program:
                         else:
                             params.append(p)
                     params = sfpar.par_convert(params, prog)
-                    gate(*params) | regrefs  # pylint:disable=expression-not-assigned
+                    _apply(gate(*params), op, regrefs)
             else:
-                gate() | regrefs  # pylint:disable=expression-not-assigned,pointless-statement
+                _apply(gate(), op, regrefs)
 
     prog._target = xir_prog.options.get("_target_", xir_prog.options.get("target", None))  # pylint: disable=protected-access
 
@@ -190,7 +197,7 @@ def from_xir_to_tdm(xir_prog: xir.Program) -> TDMProgram:
                     for key, val in params.items():
                         if isinstance(val, str) and is_ptype(val):
                             params[key] = p[int(val[1:])]
-                    gate(**params) | regrefs  # pylint:disable=expression-not-assigned
+                    _apply(gate(**params), op, regrefs)
                 else:
                     params = []
                     for param in op.params:
@@ -203,9 +210,9 @@ def from_xir_to_tdm(xir_prog: xir.Program) -> TDMProgram:
                         else:
                             params.append(param)
                     params = sfpar.par_convert(params, prog)
-                    gate(*params) | regrefs  # pylint:disable=expression-not-assigned
+                    _apply(gate(*params), op, regrefs)
             else:
-                gate() | regrefs  # pylint:disable=expression-not-assigned,pointless-statement
+                _apply(gate(), op, regrefs)
 
     prog._target = xir_prog.options.get("target", xir_prog.options.get("_target_", None))  # pylint: disable=protected-access
 
@@ -313,7 +320,7 @@ def to_xir(prog: Program, **kwargs) -> xir.Program:
                     a = _listr(a)
                 params.append(a)
 
-        op = xir.Statement(name, params, wires)
+        op = xir.Statement(name, params, wires, inverse=bool(getattr(cmd.op, "dagger", False)))
         xir_prog.add_statement(op)
 
     return xir_prog
